@@ -19,11 +19,13 @@ CHECKS = {
                      "a Read/ReadMultipleOf may legitimately return fewer bytes than are readable; only ReadAll must return all"],
     ),
     "C12": dict(
-        pkg=".", hdir="root", test="TestVerif_C12",
-        quick=dict(shards=16, checks=150000, timeout=300),
-        thorough=dict(shards=16, checks=4000000, timeout=5400),
-        technique="property-based testing (rapid): integer reference model of the statement + metamorphic split-into-calls relation",
-        rule="rapid-generated option sets as the real callers build them (NewAbacoGroup: rescale/unwrap/bias/pulse sign/reset interval/"
+        pkg=".", hdir="root", test="TestVerif_C12(Demux)?", ids=["C12", "C12D"],
+        quick=dict(shards=16, checks=1, per_test={"TestVerif_C12": 150000, "TestVerif_C12Demux": 40000}, timeout=300),
+        thorough=dict(shards=16, checks=1, per_test={"TestVerif_C12": 4000000, "TestVerif_C12Demux": 1000000}, timeout=5400),
+        technique="property-based testing (rapid): integer reference model of the statement + metamorphic split-into-calls relation; differential data path (multi-channel demuxData) vs. one unwrapper per channel",
+        rule="(D) the Abaco data path: groups of 1-40 channels (around GOMAXPROCS, which is part of the case: 1-16) built by NewAbacoGroup with generated "
+             "inversion lists (first/last channel of the group, inside, outside), packets of 1-6 frames pushed through the real demuxData in generated "
+             "call splits, every channel compared with one unwrapper over the whole channel. (main) rapid-generated option sets as the real callers build them (NewAbacoGroup: rescale/unwrap/bias/pulse sign/reset interval/"
              "inversion; RoachDevice.samplePacket: 14 fraction bits, drop 2, bias on/off) x 16-bit sequences made of 1-6 segments "
              "(constant, slow/fast ramps with wraps, steps near half a quantum and near the biased window edges, arbitrary jitter; "
              "occasionally longer than the reset interval) x a split into calls; non-trivial = at least one wrap was removed AND the "
@@ -31,7 +33,9 @@ CHECKS = {
         level_text="Every output sample of the real unwrapper (obtained through the real Abaco/ROACH call sites) is checked against an "
                    "integer reference of the statement: congruence modulo one quantum, step within half a quantum (+1 LSB) of the documented "
                    "bias (0 or +-0.38 quantum), legitimate-reset discipline (run of N or N-1 samples away from home, never longer), and "
-                   "one-call == split-calls. Exploration over ~1e5 (quick) / ~3e6 (thorough) sequences.",
+                   "one-call == split-calls. Exploration over ~1e5 (quick) / ~3e6 (thorough) sequences. The data-path harness requires every "
+                   "channel of a multi-channel group, demultiplexed and unwrapped by the real demuxData in several calls, to be bit-identical to a "
+                   "single unwrapper (public constructor, inversion decided by the harness) run once over that channel.",
         level_note="Bias is taken from the documentation (0.38 quantum, sign = pulse sign), not from the constructor arithmetic; the home "
                    "offset is read from a fresh unwrapper fed one zero sample; both readings of 'after N samples' (N or N-1) are accepted.",
         assumptions=["option sets are restricted to those real callers can construct", "1 LSB tolerance on the window absorbs floor vs. round of the bias"],
@@ -114,11 +118,13 @@ CHECKS = {
                      "sub-frame product frame*divisions+offset stays inside int64"],
     ),
     "C07": dict(
-        pkg=".", hdir="root", test="TestVerif_C07[AB]", ids=["C07A", "C07B"],
+        pkg=".", hdir="root", test="TestVerif_C07[ABC]", ids=["C07A", "C07B", "C07C"],
         quick=dict(shards=16, checks=3000, timeout=600),
         thorough=dict(shards=16, checks=75000, timeout=5400),
         technique="property-based testing (rapid) with a harness-owned disk: gate writer under asyncbufio, FIFO under the real LJH/OFF writers; byte-exact stream oracle",
-        rule="(A) rapid-generated interleavings (1-60 ops) of Write(0..9000 bytes)/Flush/Close/gate-open/gate-close on asyncbufio.Writer with "
+        rule="(C) DataPublisher histories of publish / Flush / PAUSE / UNPAUSE over the real writers on regular files, every Flush followed by an "
+             "independent decode that must find every record accepted so far (the C05 generator). "
+             "(A) rapid-generated interleavings (1-60 ops) of Write(0..9000 bytes)/Flush/Close/gate-open/gate-close on asyncbufio.Writer with "
              "queue depth 1..16 over a gate writer; (B) real ljh.Writer / ljh.Writer3 / off.Writer with FileName = FIFO (pipe size 4-64 KiB, "
              "record lengths 1..257 samples, 1-5 bases): records while the far end reads, then the far end stops reading until WriteRecord "
              "is rejected (queue full), 0-9 further attempts, then the far end resumes and 1-6 more records, optional Flush, Close. "
